@@ -51,6 +51,13 @@ def tasks(tier, seed):
                     budget = rnd.choice(["none", "sym"])
                     via = "model" if rnd.random() < 0.3 else "direct"
                     add(3, K, a, comp, gap, budget, via)
+    # hidden games of ANY class (no assumption): everything except "reward never positive" must still hold
+    for K in fam3:
+        for a in F.extras(3):
+            if a not in K:
+                add(3, K, a, rnd.choice(["superadditive", "superadditive_cached"]), rnd.choice(["exploitability", "l1_norm"]), "none", "direct")
+                out[-1]["anyclass"] = True
+                out[-1]["key"] += "/anyclass"
     # histories ending in an out-of-order unstep: step(x), step(a), unstep(x) — the unstep's own return values are checked
     for comp in COMPUTERS:
         for K in fam3:
@@ -87,6 +94,8 @@ def setup(params, inp, lg):
     ass = []
     for k in (1, 2, 3):
         v = _draw(inp, k, n)
+        if params.get("anyclass"):
+            continue            # hidden games of any class: bounds may cross, the gap may be negative
         ass += F.sam_constraints(v, n, lg) if COMPUTERS[params["computer"]] == "sam" else F.sa_constraints(v, n, lg)
     known = set(F.minimal(n)) | set(params["K"]) | set(params["init"])
     for S in range(2 ** n):
@@ -161,6 +170,12 @@ def scenario(pk, params, inp):
     fresh.set_known_values([hidden[S] for S in ks], [C(S) for S in ks])
     fresh.compute_bounds()
     out["fresh_gap"] = gapf(fresh)
+    if params.get("anyclass"):
+        # outside the class "normalised" has no definition of its own (C15 speaks about superadditive games): the oracle is what the
+        # library's normalisation yields on a copy of the hidden game
+        cp = _full(pk, n, hidden)
+        pk.normalize.normalize_game(cp)
+        out["norm_ref"] = [cp.get_value(C(S)) for S in range(2 ** n)]
     out["fresh_widths_all_zero"] = bool(_all_zero(pk, fresh, n))
     # reset: new hidden game, minimal knowledge
     obs0, info0 = env.reset()
@@ -236,7 +251,9 @@ def claims(params, inp, out, lg):
     for i, S in enumerate(ex_ref):
         num, g = _norm_ref(lg, v, S, n)
         for tag, vec in (("obs", out["obs"]), ("state", out["state"])):
-            if S in known:
+            if S in known and "norm_ref" in out:
+                cl.append((f"{tag}-normalised-hidden-value:S={S}", lg.eq(vec[i], out["norm_ref"][S])))
+            elif S in known:
                 if lg.mode == "sym":
                     cl.append((f"{tag}-normalised-hidden-value:S={S}",
                                lg.And(lg.Implies(lg.Not(lg.eq(g, zero)), lg.truth(vec[i] * g == num)),
@@ -247,7 +264,8 @@ def claims(params, inp, out, lg):
             else:
                 cl.append((f"{tag}-zero-when-unknown:S={S}", lg.eq(vec[i], zero)))
     cl.append(("reward-is-negated-fresh-gap", lg.And(lg.eq(out["reward"], zero - out["fresh_gap"]), lg.eq(out["prop_reward"], out["reward"]))))
-    cl.append(("reward-never-positive", lg.le(out["reward"], zero)))
+    if not params.get("anyclass"):
+        cl.append(("reward-never-positive", lg.le(out["reward"], zero)))
     nothing_left = all(S in known for S in ex_ref)
     if params["budget"] == "none":
         want_done = nothing_left or out["fresh_widths_all_zero"]
